@@ -30,6 +30,9 @@
 #include "ref_malloc.h"
 #include "ref_sort.h"
 #include "ref_swap.h"
+#ifdef NASA_REFINE_VERIF
+#include "ref_verif.h"
+#endif
 
 REF_FCN REF_STATUS ref_cavity_create(REF_CAVITY *ref_cavity_ptr) {
   REF_CAVITY ref_cavity;
@@ -647,6 +650,10 @@ REF_FCN REF_STATUS ref_cavity_replace(REF_CAVITY ref_cavity) {
 
   REIS(REF_CAVITY_VISIBLE, ref_cavity_state(ref_cavity),
        "attempt to replace cavity that is inconsistent");
+#ifdef NASA_REFINE_VERIF
+  ref_verif_op("begin", "cavity_replace", ref_cavity,
+               ref_cavity_node(ref_cavity), REF_EMPTY, REF_EMPTY);
+#endif
 
   if (0 == ref_cavity_nseg(ref_cavity) && 0 == ref_cavity_nface(ref_cavity) &&
       0 == ref_list_n(ref_cavity_tri_list(ref_cavity)) &&
@@ -786,6 +793,10 @@ REF_FCN REF_STATUS ref_cavity_replace(REF_CAVITY ref_cavity) {
 
   RSS(ref_list_free(ref_list), "list free");
 
+#ifdef NASA_REFINE_VERIF
+  ref_verif_op("accept", "cavity_replace", ref_cavity,
+               ref_cavity_node(ref_cavity), REF_EMPTY, REF_EMPTY);
+#endif
   return REF_SUCCESS;
 }
 
